@@ -20,16 +20,22 @@ class RandomWalkPolicy:
 
     name = "walk"
 
-    def __init__(self, seed, p=0.1, p_line=0.02, stall_p=0.0, stall_durs=(0.05, 0.3, 1.2, 3.0)):
+    def __init__(self, seed, p=0.1, p_line=0.02, stall_p=0.0, stall_durs=(0.05, 0.3, 1.2, 3.0), stall_hot=0.0):
         self.rng = random.Random(seed)
         self.p = p
         self.p_line = p_line
         self.stall_p = stall_p
         self.stall_durs = stall_durs
+        self.stall_hot = stall_hot
         self.stalls = 0
 
     def choose(self, sim, cur, cands, kind):
-        p = self.p_line if kind == "line" else self.p
+        if kind == "line":
+            p = self.p_line
+        elif kind == "line-hot":
+            p = max(0.25, min(0.6, self.p_line * 6))
+        else:
+            p = self.p
         if cur is not None and cands[0] is cur:
             if self.rng.random() >= p:
                 return cur
@@ -39,6 +45,13 @@ class RandomWalkPolicy:
         return cands[self.rng.randrange(len(cands))]
 
     def stall(self, sim, cur, kind):
+        if kind == "line-hot":
+            # the thread loses the CPU between two lines of a function that touches shared state:
+            # every other thread runs until it blocks before this one continues
+            if self.stall_hot and self.rng.random() < self.stall_hot:
+                self.stalls += 1
+                return (0.001, 0.01, 0.05, 0.3)[self.rng.randrange(4)]
+            return 0.0
         if self.stall_p and kind != "line" and self.rng.random() < self.stall_p:
             self.stalls += 1
             return self.stall_durs[self.rng.randrange(len(self.stall_durs))]
@@ -80,7 +93,8 @@ def make_policy(sched, inv):
     kind = sched.get("policy", "default")
     seed = (sched.get("seed", 0) * 1000003 + inv) & 0xFFFFFFFF
     if kind == "walk":
-        return RandomWalkPolicy(seed, sched.get("p", 0.1), sched.get("p_line", 0.02), sched.get("stall_p", 0.0))
+        return RandomWalkPolicy(seed, sched.get("p", 0.1), sched.get("p_line", 0.02), sched.get("stall_p", 0.0),
+                                stall_hot=sched.get("stall_hot", 0.0))
     if kind == "pct":
         return PCTPolicy(seed, sched.get("d", 2), sched.get("horizon", 400))
     return _sim.DefaultPolicy()
